@@ -422,3 +422,36 @@ Proof.
     + apply Cl. exact Huw.
     + destruct P1 as [Px Py]. split; [rewrite Px|rewrite Py]; unfold lpoint, px, py; cbn [fst snd]; rewrite E1; reflexivity.
 Qed.
+
+(** the chord is exactly where the column contains the points of the line (the model's own
+    [in_polygon]), for points off the supporting lines of the edges *)
+Lemma chord_is_containment l l1 l2 a1 b1 a2 b2 s1 s2 tx ty t :
+  (3 <= length l)%nat -> convex_ccw l ->
+  In (a1, b1) (edges l) -> In (a2, b2) (edges l) -> 0 <= s1 <= 1 -> 0 <= s2 <= 1 ->
+  pt_eq (lpoint l1 l2 tx) (lpoint a1 b1 s1) -> pt_eq (lpoint l1 l2 ty) (lpoint a2 b2 s2) ->
+  ~ ldet l1 l2 a1 b1 == 0 -> ~ ldet l1 l2 a2 b2 == 0 -> tx < ty ->
+  (forall u w, In (u, w) (edges l) -> ~ (orient u w (lpoint l1 l2 tx) == 0 /\ orient u w (lpoint l1 l2 ty) == 0)) ->
+  off_edge_lines l (lpoint l1 l2 t) ->
+  (in_polygon (lpoint l1 l2 t) l = true <-> tx < t /\ t < ty).
+Proof.
+  intros Hn Hc He1 He2 Hs1 Hs2 HX HY Hd1 Hd2 Hlt Hnd Hoff.
+  rewrite (in_polygon_convex_l l _ Hn Hc Hoff). split.
+  - intro Hin. split.
+    + destruct (Qlt_le_dec tx t) as [L|L]; [exact L|exfalso].
+      pose proof (Hin a1 b1 He1) as P.
+      destruct (Qlt_le_dec t tx) as [L'|L'].
+      * pose proof (chord_before_outside l l1 l2 Hc a1 b1 a2 b2 s1 s2 tx ty He1 He2 Hs2 HX HY Hd1 Hlt t L'). lra.
+      * assert (E : t == tx) by lra.
+        assert (Z : orient a1 b1 (lpoint l1 l2 t) == 0).
+        { rewrite orient_lpoint, E, <- orient_lpoint, (orient_pt_eq _ _ _ _ HX), orient_lpoint, orient_aa, orient_ab. ring. }
+        lra.
+    + destruct (Qlt_le_dec t ty) as [L|L]; [exact L|exfalso].
+      pose proof (Hin a2 b2 He2) as P.
+      destruct (Qlt_le_dec ty t) as [L'|L'].
+      * pose proof (chord_after_outside l l1 l2 Hc a1 b1 a2 b2 s1 s2 tx ty He1 He2 Hs1 HX HY Hd2 Hlt t L'). lra.
+      * assert (E : t == ty) by lra.
+        assert (Z : orient a2 b2 (lpoint l1 l2 t) == 0).
+        { rewrite orient_lpoint, E, <- orient_lpoint, (orient_pt_eq _ _ _ _ HY), orient_lpoint, orient_aa, orient_ab. ring. }
+        lra.
+  - intros [T0 T1]. exact (chord_between_strict l l1 l2 Hc a1 b1 a2 b2 s1 s2 tx ty He1 He2 Hs1 Hs2 HX HY t T0 T1 Hnd).
+Qed.
